@@ -10,6 +10,13 @@
 (*   {"op":"compile","ok":b}     FileTree::compile returned Ok / Err        *)
 (*   {"op":"call","id":f,"v":x}  function f of the package returned x       *)
 (*   {"op":"get","id":c,"v":x}   a getter of constant c returned x          *)
+(*   {"op":"getv","id":c,"v":[..]}  a typed getter of constant c showed     *)
+(*        these leaves (ConstOrder.Flat)                                    *)
+(*   {"op":"mut","id":c,"via":..,"how":..,"w":n,"v":[[..],[..]]}  a         *)
+(*        function took a copy of constant c (via), modified the copy       *)
+(*        (how, w) and showed the copy and a fresh read of the constant     *)
+(* the graph event may carry "ty": the value types of the constants         *)
+(* (absent = all i32)                                                       *)
 (* The trace is accepted iff it is a behaviour of ConstOrder: mark is       *)
 (* EvalConst (only when every constant it depends on was marked before,     *)
 (* never twice, never in a script that has to be rejected, and with the     *)
@@ -27,11 +34,12 @@ tvars == <<vars, l>>
 Ev == Rec[l]
 IsEv(name) == l <= Len(Rec) /\ Ev.op = name /\ l' = l + 1
 
-EmptyGraph == [n |-> 0, kind |-> <<>>, refs |-> {}, ctx |-> {}]
+EmptyGraph == [n |-> 0, kind |-> <<>>, refs |-> {}, ctx |-> {}, ty |-> <<>>]
 GraphOf(e) == [n    |-> e.n,
                kind |-> e.kind,
                refs |-> {e.refs[i] : i \in 1..Len(e.refs)},
-               ctx  |-> {e.ctx[i] : i \in 1..Len(e.ctx)}]
+               ctx  |-> {e.ctx[i] : i \in 1..Len(e.ctx)},
+               ty   |-> IF "ty" \in DOMAIN e THEN e.ty ELSE [i \in 1..e.n |-> "i32"]]
 
 TraceInit == InitState(EmptyGraph) /\ l = 1
 
@@ -42,6 +50,8 @@ TraceNext ==
   \/ IsEv("compile") /\ (IF Ev.ok THEN Done ELSE Reject)
   \/ IsEv("call") /\ Call(Ev.id) /\ obs' = Ev.v
   \/ IsEv("get") /\ Get(Ev.id) /\ obs' = Ev.v
+  \/ IsEv("getv") /\ GetV(Ev.id) /\ obs' = Ev.v
+  \/ IsEv("mut") /\ Mut(Ev.id, Ev.via, Ev.how, Ev.w) /\ obs' = Ev.v
 
 TraceSpec == TraceInit /\ [][TraceNext]_tvars
 
